@@ -484,7 +484,7 @@ type c05TabObs struct {
 func c05MetricName(k int64) string { return "m" + strconv.FormatInt(k, 10) }
 
 func c05DumpTable(mt *MetricTable) c05TabObs {
-	o := c05TabObs{Count: int64(mt.count), Dropped: int64(mt.numDropped), Failed: int64(mt.failedHarvests), Entries: [][3]int64{}}
+	o := c05TabObs{Count: int64(verifTableCount(mt)), Dropped: int64(mt.numDropped), Failed: int64(mt.failedHarvests), Entries: [][3]int64{}}
 	for name, s := range mt.metrics {
 		for scope, m := range s {
 			k, err := strconv.ParseInt(strings.TrimPrefix(name, "m"), 10, 64)
